@@ -455,13 +455,25 @@ def prune_dataflow_cache(world: World):
     """
     if not world.use_cache:
         return
-    min_cache_time = min(s.last_step.time for s in world.sims.values())
+    # A later step at time t pulls the newest output at or before
+    # t - shift; no simulator steps before its last step again.
+    max_shift = max(
+        (delay.tiers[0] for s in world.sims.values() for _, delay in s.pulled_inputs),
+        default=0,
+    )
+    min_cache_time = min(s.last_step.time for s in world.sims.values()) - max_shift
     for sim in world.sims.values():
         if sim.outputs:
+            # Outputs need not exist for every time: keep the newest
+            # entry at or before min_cache_time as well.
+            keep_from = max(
+                (time for time in sim.outputs if time <= min_cache_time),
+                default=min_cache_time,
+            )
             sim.outputs = {
                 time: cache
                 for time, cache in sim.outputs.items()
-                if time >= min_cache_time
+                if time >= keep_from
             }
 
 
